@@ -3226,6 +3226,10 @@ class Kernel:
             return f"(PyRt.enumerate {t})", ty, f"(({mg(i)}, {mg(x)}) : Int × {lean_ty(ty[1])})"
         if isinstance(s.target, ast.Tuple) and all(isinstance(x, ast.Name) for x in s.target.elts):
             t, ty = self.expr(it, env, binds)
+            if isinstance(ty, tuple) and ty[0] == "opt" and isinstance(ty[1], tuple) and ty[1][0] == "list":
+                nm = self.fresh()
+                binds.append((nm, f"(PyRt.needIter {t})", ty[1]))      # iterating None: TypeError
+                t, ty = nm, ty[1]
             if not (isinstance(ty, tuple) and ty[0] == "list" and isinstance(ty[1], tuple) and ty[1][0] == "tuple" and len(ty[1][1]) == len(s.target.elts)):
                 raise Unsupported("tuple loop target over a non-list-of-tuples")
             for x, tx in zip(s.target.elts, ty[1][1]):
